@@ -32,6 +32,6 @@ func TestCheck(t *testing.T) {
 			"range phantoms (a key not yielded because it did not exist) are outside the stated rule and not part of the read set",
 			"while C32-atmark is open, transactions that begin at or below the read watermark are exempt from the must-conflict rule (counted as excluded)"},
 	}
-	pbt.Add(s, &pbt.Spec[txm.Case]{Name: "history", Gen: gen, Run: txm.Run, Quick: 640, Thorough: 30000, Shards: 16})
+	pbt.Add(s, &pbt.Spec[txm.Case]{Name: "history", Gen: gen, Run: txm.Run, Quick: 400, Thorough: 30000, Shards: 16})
 	s.Main(t)
 }
